@@ -73,6 +73,7 @@ def small_drop_reaction(draw):
 def spelling_case(draw):
     base, tags = draw(st.one_of(
         small_drop_reaction(), small_drop_reaction(), gen.template_reaction(),
+        gen.with_markers(st.one_of(small_drop_reaction(), gen.template_reaction()), max_markers=1),
         gen.indexed(gen.load_reactions_capped("balanced", 40, 5)).map(lambda r: (r, ["balanced"])),
         pp.closed_shell_rx(gen.corpus_reaction(30, 4))))
     if not oracle.reaction_closed_shell(base):
@@ -104,7 +105,17 @@ def check_case(case, spec=None):
     res.tag("base:" + str(outcome))
     res.evals = len(variants)
     if outcome not in ("input-balanced", "rule-based"):
-        return res
+        # the property is about the whole class of equivalent spellings: if ANY spelling has a composition-determined
+        # outcome, that one is the reference and every other spelling (incl. the drawn base) must agree with it
+        ref = next((k for k, r in enumerate(rows) if r.get("solved") and r.get("solved_by") in ("input-balanced", "rule-based")), None)
+        if ref is None:
+            return res
+        allsp = [base] + variants
+        base, r0 = allsp[ref], rows[ref]
+        variants = [s_ for k, s_ in enumerate(allsp) if k != ref]
+        rows = [r0] + [r for k, r in enumerate(rows) if k != ref]
+        outcome = r0.get("solved_by")
+        res.tag("reference-is-a-variant")
     ad0 = pp.added_molecules(base, r0["reaction"])
     tmpl = template_smiles()
 
